@@ -586,7 +586,10 @@ class Scheduler:
             v = G.positive_value(r) if sp.T == ["par", p] else G.gen_value(r, sp.sym(p), N)
             if sp.sym(p).get("node_only"):
                 v = G.node_only_value(r, sp, sp.sym(p))
-            return {"op": "set_value", "a": a, "p": p, "v": v}
+            d = {"op": "set_value", "a": a, "p": p, "v": v}
+            if isinstance(v, dict) and v.get("as") == "np" and r.random() < 0.6:
+                d["reuse"] = True  # same numpy array object as last time, updated in place
+            return d
         if k == "set_initial":
             tg = G.guess_targets(sp)
             if not tg:
